@@ -51,6 +51,8 @@ func plan(tier string, seed int64) []driver.Case {
 					continue
 				}
 				cases = append(cases, driver.Case{ID: fmt.Sprintf("op/%s/%s/%s", e.Name, sc, drive), P: map[string]string{"kind": "op", "entry": e.Name, "script": sc, "drive": drive}})
+				// the same with sources whose notifications carry a context unrelated to the subscription's
+				cases = append(cases, driver.Case{ID: fmt.Sprintf("op/%s/%s/%s-foreign", e.Name, sc, drive), P: map[string]string{"kind": "op", "entry": e.Name, "script": sc, "drive": drive, "foreign": "1"}})
 			}
 		}
 	}
@@ -69,11 +71,124 @@ func plan(tier string, seed int64) []driver.Case {
 		sc := scripts[rng.Intn(len(scripts))]
 		cases = append(cases, driver.Case{ID: fmt.Sprintf("chain/%d/%s/%s", i, strings.Join(names, ">"), sc), P: map[string]string{"kind": "op", "chain": strings.Join(names, ">"), "script": sc, "drive": []string{"sync", "puppet"}[rng.Intn(2)]}})
 	}
+	// one pipeline value, two subscriptions with different subscription contexts: each subscriber
+	// sees its own context in every callback, never the other one's (state kept across or between
+	// subscriptions must not carry a context along)
+	for _, e := range catalog.All() {
+		if e.Flags.Has(catalog.Creation) || e.Flags.Has(catalog.Hot) || e.Flags.Has(catalog.CtxExempt) {
+			continue
+		}
+		for _, sc := range []string{"C", "1 C", "2 1 E", "1 2 0 2 C"} {
+			for _, drive := range []string{"sync", "puppet"} {
+				if e.Flags.Has(catalog.Blocks) && drive == "puppet" {
+					continue
+				}
+				cases = append(cases, driver.Case{ID: fmt.Sprintf("twosubs/%s/%s/%s", e.Name, sc, drive), P: map[string]string{"kind": "twosubs", "entry": e.Name, "script": sc, "drive": drive}})
+			}
+		}
+	}
+	for _, d := range []string{"Timeout(3ms)"} {
+		cases = append(cases, driver.Case{ID: "twosubs/" + d + "/silent", P: map[string]string{"kind": "twosubs", "adhoc": d}})
+	}
 	// hot sources: the producer's context must be delivered
 	for _, k := range []string{"publish", "behavior", "replay", "async", "unicast"} {
 		cases = append(cases, driver.Case{ID: "subject/" + k, P: map[string]string{"kind": "subject", "subject": k}})
 	}
 	return cases
+}
+
+// runTwoSubs: see the plan. Both subscriptions are alive at the same time when the sources are
+// puppets; with synchronous sources the first one has ended when the second one starts.
+func runTwoSubs(c driver.Case) driver.Result {
+	rec.ResetHooks()
+	res := driver.Result{Verdict: driver.Held}
+	sc := src.Parse(c.Get("script"))
+	var p catalog.Pipeline
+	var srcs []*src.Source
+	name, fam := "", ""
+	asyncish := false
+	if ad := c.Get("adhoc"); ad != "" {
+		name, fam = ad, "Timeout"
+		s := src.New("s0")
+		srcs = []*src.Source{s}
+		p = catalog.P(ro.Timeout[int](3 * time.Millisecond)(s.Observable()))
+		asyncish = true
+	} else {
+		e := catalog.Get(c.Get("entry"))
+		name, fam = e.Name, e.Family
+		asyncish = e.Flags.Has(catalog.Async) || e.Flags.Has(catalog.HandOff) || e.Flags.Has(catalog.TimeDriven)
+		b := &catalog.B{}
+		for i := 0; i < e.NSrc; i++ {
+			var s *src.Source
+			if c.Get("drive") == "sync" {
+				s = src.New(fmt.Sprintf("s%d", i), sc)
+			} else {
+				s = src.New(fmt.Sprintf("s%d", i))
+			}
+			srcs = append(srcs, s)
+			b.Srcs = append(b.Srcs, s.Observable())
+		}
+		p = e.Pipeline(b)
+	}
+	markers := []string{"sub-A", "sub-B"}
+	recs := []*rec.Rec{rec.New(name + "/A"), rec.New(name + "/B")}
+	var subs []ro.Subscription
+	for k := range markers {
+		k := k
+		ctx := context.WithValue(context.Background(), rec.SubKey, markers[k])
+		var sub ro.Subscription
+		st, _, pan := quiesce.Call(func() { sub = p.Subscribe(ctx, recs[k], false) }, 10*time.Second)
+		if st != quiesce.Returned {
+			return driver.Result{Verdict: driver.Inconclusive, Key: "subscribe-blocked", Dirty: true}
+		}
+		if pan != nil {
+			res.Verdict, res.Key = driver.Violated, "C09/"+fam+"/panic-escaped-subscribe"
+			res.Msg = fmt.Sprintf("%s: %v", name, pan)
+			return res
+		}
+		subs = append(subs, sub)
+	}
+	defer func() {
+		for _, s := range subs {
+			func() { defer func() { recover() }(); s.Unsubscribe() }()
+		}
+	}()
+	if c.Get("drive") == "puppet" {
+		// notification k of the script goes to subscription A of every source, then to subscription B
+		for round := 0; round < len(sc); round++ {
+			for _, s := range srcs {
+				for idx := 0; idx < int(s.Subscribed.Load()) && idx < 2; idx++ {
+					n, idx := sc[round], idx
+					if st, _, _ := quiesce.Call(func() { defer func() { recover() }(); s.SendTo(idx, n) }, 8*time.Second); st != quiesce.Returned {
+						return driver.Result{Verdict: driver.Inconclusive, Key: "producer-blocked-in-library", Dirty: true}
+					}
+				}
+			}
+		}
+	}
+	if asyncish {
+		time.Sleep(12 * time.Millisecond)
+		quiesce.Settle(2 * time.Second)
+	}
+	for k, r := range recs {
+		for i, x := range r.Events() {
+			res.Events++
+			if x.CtxNil {
+				res.Verdict, res.Key = driver.Violated, "C09/"+fam+"/nil-context"
+				res.Msg = fmt.Sprintf("%s, subscription %s: callback #%d (%s) was invoked with a nil context", name, markers[k], i, x.String())
+				return res
+			}
+			if x.Sub != "" && x.Sub != markers[k] {
+				res.Verdict, res.Key = driver.Violated, "C09/"+fam+"/context-of-another-subscription"
+				res.Msg = fmt.Sprintf("%s, one pipeline value subscribed twice (contexts sub-A and sub-B, %s sources playing [%s]): callback #%d (%s) of subscription %s carries the subscription context of %s; traces A=[%s] B=[%s]", name, c.Get("drive"), sc, i, x.String(), markers[k], x.Sub, recs[0].TraceString(), recs[1].TraceString())
+				return res
+			}
+		}
+	}
+	res.Nontrivial = res.Events > 0
+	res.Sig = "twosubs/" + name + "/" + c.Get("script") + "/" + c.Get("drive")
+	res.Sample = map[string]any{"pipeline": name, "script": c.Get("script"), "drive": c.Get("drive"), "trace_A": recs[0].TraceString(), "trace_B": recs[1].TraceString()}
+	return res
 }
 
 func runOp(c driver.Case) driver.Result {
@@ -106,6 +221,7 @@ func runOp(c driver.Case) driver.Result {
 		} else {
 			s = src.New(fmt.Sprintf("s%d", i))
 		}
+		s.Foreign = c.Get("foreign") == "1"
 		srcs = append(srcs, s)
 		// a context operator upstream of the operator under test attaches the "up" marker to every notification
 		b.Srcs = append(b.Srcs, ro.ContextWithValue[int](rec.UpKey, "up")(s.Observable()))
@@ -174,6 +290,13 @@ func runOp(c driver.Case) driver.Result {
 			return fail("source-subscribed-with-nil-context", "source "+s.Name+" was subscribed with a nil context")
 		}
 		for idx, m := range s.SubCtxSub {
+			if idx > 0 && c.Get("foreign") == "1" {
+				// re-subscribing operators thread the context of the previous round's terminal (or the one a
+				// WithContext callback returned) into the next subscription: with a source whose
+				// notifications do not descend from the subscription context that chain is broken by the
+				// source, not by the operator
+				continue
+			}
 			if m != "sub" {
 				return fail("subscription-context-not-passed-to-source", fmt.Sprintf("subscription #%d of source %s does not carry the value attached to the context given to SubscribeWithContext", idx, s.Name))
 			}
@@ -232,7 +355,7 @@ func runOp(c driver.Case) driver.Result {
 		}
 		kind := []string{"Next", "Error", "Complete"}[x.Kind]
 		hot := flags.Has(catalog.Hot) && x.Item == "" // value replayed by a hot connector (e.g. a behavior subject's initial value)
-		if x.Sub != "sub" && !hot {
+		if x.Sub != "sub" && !hot && c.Get("foreign") != "1" {
 			return fail("subscription-value-missing-in-"+kind, fmt.Sprintf("callback #%d (%s) does not see the value attached to the subscription context", i, x.String()))
 		}
 		// which emission was in progress?
@@ -359,6 +482,8 @@ func runCase(c driver.Case) driver.Result {
 		return runCreation(c)
 	case "subject":
 		return runSubject(c)
+	case "twosubs":
+		return runTwoSubs(c)
 	}
 	return runOp(c)
 }
@@ -367,7 +492,7 @@ func main() {
 	driver.Main(driver.Property{
 		ID:        "C09",
 		Level:     "exploration",
-		Rule:      "every catalogue entry (and random chains) × scripts with the three endings × sources {synchronous inside Subscribe, puppet after Subscribe}: SubscribeWithContext gets a context carrying a subscription value; every source notification carries its own per-item value; a ContextWithValue operator upstream of the operator under test attaches a third value; WithContext callbacks return a derived context (fourth value). Oracle on every callback of the recording observer: context non-nil; subscription value visible in Next, Error and Complete; every source subscription carries the subscription value; a delivery made while a source notification is processed carries a per-item value of a source notification (of exactly that one for 1:1 synchronous operators); the upstream operator's value and the callback-returned value are still attached. Exempt by definition: ContextReset, DefaultIfEmptyWithContext. Non-trivial: ≥1 callback observed. For Delay / ObserveOn / SubscribeOn (one value out per value in, FIFO) the i-th delivered value must carry the per-item context of the i-th source value, however many values wait inside the operator.",
+		Rule:      "every catalogue entry (and random chains) × scripts with the three endings × sources {synchronous inside Subscribe, puppet after Subscribe}: SubscribeWithContext gets a context carrying a subscription value; every source notification carries its own per-item value; a ContextWithValue operator upstream of the operator under test attaches a third value; WithContext callbacks return a derived context (fourth value). Oracle on every callback of the recording observer: context non-nil; subscription value visible in Next, Error and Complete; every source subscription carries the subscription value; a delivery made while a source notification is processed carries a per-item value of a source notification (of exactly that one for 1:1 synchronous operators); the upstream operator's value and the callback-returned value are still attached. Exempt by definition: ContextReset, DefaultIfEmptyWithContext. Non-trivial: ≥1 callback observed. For Delay / ObserveOn / SubscribeOn (one value out per value in, FIFO) the i-th delivered value must carry the per-item context of the i-th source value, however many values wait inside the operator. Also: sources whose notifications carry a context that does NOT descend from the subscription context (foreign) - what context operators and WithContext callbacks attach must still be there on values, errors and completion; and one pipeline value subscribed twice with different subscription contexts (sources synchronous or puppets interleaved through SendTo) - no callback of one subscription carries the context of the other.",
 		Assume:    []string{"operators that store or combine notifications may deliver the context of any contributing notification"},
 		Plan:      plan,
 		Run:       runCase,
